@@ -135,6 +135,8 @@ def run(ctx, bt):
     run_programs(ctx, bt, ctx.scale(70, 1500), check_program)
     cash_only(ctx, bt, ctx.scale(15, 300))
     scale_twins(ctx, bt, ctx.scale(25, 500))
+    from ..runs_run import run_steps_protocol
+    run_steps_protocol(ctx, bt, ctx.scale(12, 300), FOOT_FIELDS, "run-steps[C03]")
 
 
 def search(ctx, bt):
